@@ -410,13 +410,19 @@ pub fn run() {
             }
         }
     }
-    rep.set("evaluations", jobs.len() as u64);
+    // forged handshakes: the attacker worlds of C01 with the attribution clause read for C02
+    let (ast, avio, _) = crate::attack::explore("C02", thorough, mc::budget(thorough, 25.0, 0.5), if thorough { 4 } else { 3 });
+    rep.set("attacker_worlds_states", ast.states);
+    rep.set("attacker_worlds_executions", ast.executions);
+    rep.set("attacker_worlds_attributed_events_with_proof", ast.counters.get("attributed_events_with_proof").copied().unwrap_or(0));
+    violations.extend(avio);
+    rep.set("evaluations", jobs.len() as u64 + ast.executions);
     rep.set("mutated_executions", jobs.len() as u64);
     rep.set("executions_with_unchanged_outcome", unaffected);
     rep.set("handler_steps_executed", steps);
     rep.set("distinct_nontrivial", outcomes.len() as u64);
     rep.set("exhaustive", true);
-    rep.set("rule", "for every genuine datagram of three base exchanges (fresh / re-keyed with old keys retained / awaiting the peer's record; 3 real handlers incl. an uninvolved one) and every mutation descriptor — every bit flip (quick: all 8 bits in IV+static header+auth head, one bit per byte elsewhere), every truncation length, one inserted byte {00,ff} at every position, appended tails, unmasked-domain edits of header bytes (unmask, edit, re-mask), every splice of this header with another logged datagram's body and vice versa, re-masking for another node, redirection to another node, foreign source addresses — the base history is replayed up to the delivery, the mutated datagram is delivered instead and the run is completed by the default policy; oracle on every step: whatever any application receives is a message its attributed sender submitted. Mutations are descriptors applied to the current execution's bytes. distinct = distinct (mutation class, terminal outcome) pairs");
+    rep.set("rule", "for every genuine datagram of three base exchanges (fresh / re-keyed with old keys retained / awaiting the peer's record; 3 real handlers incl. an uninvolved one) and every mutation descriptor — every bit flip (quick: all 8 bits in IV+static header+auth head, one bit per byte elsewhere), every truncation length, one inserted byte {00,ff} at every position, appended tails, unmasked-domain edits of header bytes (unmask, edit, re-mask), every splice of this header with another logged datagram's body and vice versa, re-masking for another node, redirection to another node, foreign source addresses — the base history is replayed up to the delivery, the mutated datagram is delivered instead and the run is completed by the default policy; oracle on every step: whatever any application receives is a message its attributed sender submitted, and an altered datagram never carries a delivered message; plus the attacker worlds of C01 (forged handshakes, replays; ≤ 3 (4) attacker moves) with the clause that requests / responses are attributed to a peer only if that peer proved its identity or the datagram really came from it. Mutations are descriptors applied to the current execution's bytes. distinct = distinct (mutation class, terminal outcome) pairs");
     rep.assume("symbolic attacker (no key material); AES-GCM / AES-CTR strength assumed, their use (AAD = IV ‖ header, keys per session) is executed for real");
     for v in violations.into_iter().take(10) {
         rep.violation(v);
